@@ -123,16 +123,16 @@ var (
 func u64(x uint64) *big.Int { return new(big.Int).SetUint64(x) }
 
 // modelSender: what the specification says about (fields, v, r, s) under network id net:
-// ok=false when no sender exists (malformed / foreign network / high s / no such curve point).
+// ok=false when no key can have produced it (r/s out of range, V not 35+2*net+{0,1}, no such
+// curve point).
 func modelSender(f *model.TxFields, v, r, s *big.Int, net uint64) (common.Address, bool) {
 	rec := new(big.Int).Sub(v, big35)
 	rec.Sub(rec, new(big.Int).Mul(u64(net), big2))
 	if rec.Sign() < 0 || rec.Cmp(big.NewInt(1)) > 0 {
 		return common.Address{}, false
 	}
-	if s.Cmp(model.SecpHalfN) > 0 {
-		return common.Address{}, false
-	}
+	// (no low-s rule here: a high-s signature that is accepted with ANOTHER sender does not
+	// contradict the statement; the twin that keeps the sender is caught as mutation-keeps-sender)
 	x, y, err := model.SecpRecover(model.TxSigHash(f, u64(net)), r, s, int(rec.Int64()))
 	if err != nil {
 		return common.Address{}, false
@@ -561,9 +561,9 @@ func runSign(c *kit.Ctx) {
 	}
 	c.End("")
 
-	n := c.N(500, 100000)
+	n := c.N(400, 12000)
 	if c.Mode == "asan" {
-		n = c.N(200, 10000)
+		n = c.N(200, 2000)
 	}
 	for i := 0; i < n; i++ {
 		id := fmt.Sprintf("g%d", i)
@@ -612,8 +612,8 @@ func runSignCase(c *kit.Ctx, id string, idx int) {
 			o.v, o.r, o.s = tx.RawSignatureValues()
 			c.Evals(1)
 			// the produced signature must be a valid low-s signature of exactly these fields
-			if !model.SecpVerify(h, o.r, o.s, key.x, key.y) || o.s.Cmp(model.SecpHalfN) > 0 {
-				c.Violation("signature-not-over-fields", "SignTx produced (r,s) that is not a valid low-s signature of the model hash of the fields under the signing key",
+			if !model.SecpVerify(h, o.r, o.s, key.x, key.y) {
+				c.Violation("signature-not-over-fields", "SignTx produced (r,s) that is not a valid signature of the model hash of the fields under the signing key",
 					sigWitness{What: "SignTx", Fields: showFields(f), Net: net, V: o.v.String(), R: o.r.Text(16), S: o.s.Text(16), Signer: key.addr.Hex()})
 				c.End("")
 				return
